@@ -25,6 +25,7 @@ fn hist_scenarios(id: &str, tier: &str) -> Option<(Vec<Scenario>, Option<hist::O
         "C18" => Some((props::c18::scenarios(tier), Some(props::c18::oracle_factory()))),
         "C19" => Some((props::c19::scenarios(tier), Some(props::c19::oracle_factory()))),
         "C10" => Some((props::c10::scenarios(tier), Some(props::c10::oracle_factory()))),
+        "C09H" => Some((props::c09::history_scenarios(tier), None)),
         _ => None,
     }
 }
